@@ -10,6 +10,7 @@
 //   harness arena <reps>         (TBB) first schedule() of a functor type from inside a small task_arena, later ones from main
 //   harness ownerthief <T> <get|drop|pf> <ms>  owner pops its own pipe while a worker steals the only item
 //   harness steal <T> <iters>    a closure run by a worker schedules another and spins: a second worker must steal it
+//   harness teardown reinit <T> <T2> <n> <depth> | teardown exit <T> <n> <depth>   bursts (with follow-up chains) right before scheduler teardown
 //   harness onethread            tasking system initialised with 1 thread, one schedule(), no waiting
 #include <algorithm>
 #include <atomic>
@@ -735,12 +736,80 @@ static int mode_steal(int T, int iters)
   _exit(0);
 }
 
+// ------------------------------------------------ scheduler teardown: re-initialisation and process exit
+// teardown reinit <T> <T2> <n> <depth>: initTaskingSystem(T); a burst of n closures, each bumping its counter and (depth > 0)
+//   scheduling a follow-up chain of that depth; IMMEDIATELY initTaskingSystem(T2).  When that returns the old scheduler has
+//   been torn down: every counter (burst and follow-ups) must be exactly 1.
+// teardown exit <T> <n> <depth>: the same burst, then main() returns at once; the verdict is written by an ELF destructor
+//   (runs after all C++ static destructors, i.e. after the scheduler's).
+namespace td {
+  static std::vector<std::atomic<int>> *cnt = nullptr;
+  static int total = 0, exit_mode = 0, exit_T = 0, exit_n = 0, exit_depth = 0;
+  struct Chain
+  {
+    int base, level, depth, n;
+    void operator()() const
+    {
+      (*cnt)[level * n + base]++;
+      if (level < depth) schedule(Chain{base, level + 1, depth, n});
+    }
+  };
+  static void verdict(const char *what, int T, int T2, int n, int depth)
+  {
+    int once = 0, zero = 0, multi = 0, first_bad = -1;
+    for (int i = 0; i < total; ++i) {
+      int c = (*cnt)[i].load();
+      if (c == 1) once++; else if (c == 0) zero++; else multi++;
+      if (c != 1 && first_bad < 0) first_bad = i;
+    }
+    printf("TEARDOWN kind=%s T=%d T2=%d n=%d depth=%d tasks=%d once=%d zero=%d multi=%d first_bad=%d\n", what, T, T2, n, depth, total, once, zero,
+        multi, first_bad);
+    fflush(stdout);
+  }
+  __attribute__((destructor)) static void at_very_end()
+  {
+    if (exit_mode) {
+      verdict("exit", exit_T, 0, exit_n, exit_depth);
+      _exit(0);
+    }
+  }
+}
+static int mode_teardown(int argc, char **argv)
+{
+  std::string kind = argc > 2 ? argv[2] : "reinit";
+  int T = argc > 3 ? atoi(argv[3]) : 2;
+  int T2 = 0, n, depth;
+  if (kind == "reinit") { T2 = atoi(argv[4]); n = atoi(argv[5]); depth = atoi(argv[6]); }
+  else { n = atoi(argv[4]); depth = atoi(argv[5]); }
+  td::total = n * (depth + 1);
+  td::cnt = new std::vector<std::atomic<int>>(td::total);
+  for (auto &c : *td::cnt) c = 0;
+  // watchdog: a teardown that never returns
+  std::thread([=]() {
+    sleep_ms(20000);
+    printf("TEARDOWN kind=%s T=%d T2=%d n=%d depth=%d tasks=%d once=-1 zero=-1 multi=-1 first_bad=-1 HANG\n", kind.c_str(), T, T2, n, depth, td::total);
+    fflush(stdout);
+    _exit(0);
+  }).detach();
+  initTaskingSystem(T);
+  for (int i = 0; i < n; ++i)
+    schedule(td::Chain{i, 0, depth, n});
+  if (kind == "reinit") {
+    initTaskingSystem(T2);
+    td::verdict("reinit", T, T2, n, depth);
+    _exit(0);
+  }
+  td::exit_mode = 1; td::exit_T = T; td::exit_n = n; td::exit_depth = depth;
+  return 0;   // static destructors (the scheduler's among them) run now; then td::at_very_end
+}
+
 int main(int argc, char **argv)
 {
   if (argc < 2) return 2;
   std::string m = argv[1];
   int n = argc > 2 ? atoi(argv[2]) : 1;
   if (m == "onethread") return mode_onethread();
+  if (m == "teardown") return mode_teardown(argc, argv);
   if (m == "steal") return mode_steal(n, argc > 3 ? atoi(argv[3]) : 30);
   if (m == "ownerthief") return mode_ownerthief(n, argc > 3 ? argv[3] : "get", argc > 4 ? atoi(argv[4]) : 500);
   if (m == "wakeup") return mode_wakeup(n, argc > 3 ? atoi(argv[3]) : 3000);
